@@ -21,6 +21,11 @@ thread_local! {
     pub static LAST_PANIC: RefCell<String> = const { RefCell::new(String::new()) };
 }
 
+/// an Identity names the actor type, displays as `Type(#id)` and equals any other Identity with the same fields
+pub fn ident_ok(i: &rsactor::Identity) -> bool {
+    i.name().ends_with("SA") && i.name() == i.type_name && format!("{i}") == format!("{}(#{})", i.type_name, i.id) && *i == rsactor::Identity::new(i.id, i.type_name)
+}
+
 pub fn install_panic_hook() {
     std::panic::set_hook(Box::new(move |info| {
         PANIC_COUNT.fetch_add(1, Ordering::Relaxed);
@@ -1038,7 +1043,7 @@ impl SA {
                         actor: idx,
                         via,
                         id: id.id,
-                        type_ok: id.name().ends_with("SA"),
+                        type_ok: crate::sa::ident_ok(&id),
                     });
                 }
             }
